@@ -20,7 +20,22 @@ Direct oracles (independent of the model) at quiescence: the server stopped and
 closed every client connection; no client is blocked; every call issued or
 pending after the crash raised RuntimeError; a value returned by `result()` is
 the complete output of that client's own compilation; no worker or manager
-that is still alive keeps running.
+that is still alive keeps running; no node is blocked forever in
+`Process.join()`; a node that shut down told every employee it could still
+reach; no incoming / outgoing thread died.
+
+Fault injection (strengthening round).  A lost connection fails with the class
+the injector chose for it (`EXC`: EOFError, ConnectionResetError,
+BrokenPipeError, ConnectionAbortedError, OSError('handle is closed'),
+OSError('got end of file during message')) at `recv`, and a `send` to a dead
+peer is buffered or raises a chosen class - for server / manager run loops,
+outgoing threads, direct sends of the shutdown handlers, workers (one real
+iteration of `Worker._loop` / `Worker.recv_incoming` per transition) and
+clients.  The label of a delivery on a lost connection carries the class name;
+Model/Crash.lean classifies it (`ConnExc.hard`).  Spawned workers have a
+`Process` whose `join()` blocks forever unless the worker will exit; forked
+workers keep copies of their manager's upstream socket / the attached client
+socket.  harness.c14_sites enumerates every recv/send call site x class.
 
 (A2) real processes: harness.c14_procs (SIGKILL of real workers / managers).
 """
@@ -67,6 +82,10 @@ class NetLog(list):
         self.recv_exc = {}
         self.send_exc = {}
         self.peer_dead = set()
+
+
+class _NextIteration(BaseException):
+    """leaves the real `Worker.recv_incoming` loop after one iteration"""
 
 
 class JoinHang(BaseException):
@@ -379,6 +398,7 @@ class CrashNet:
         self.live_at_shutdown = {}      # node -> employees it could still tell
         self.joins = 0
         self.incoming_dead = {}         # worker -> exception that killed its incoming thread
+        self.outgoing_dead = {}         # node -> exception that killed its outgoing thread
         self.node = [None] * n          # Sim or Worker
         self.up_conn = [None] * n       # node i's own end towards its boss
         self.down_conn = [None] * n     # the boss's end towards node i
@@ -596,14 +616,16 @@ class CrashNet:
                         or not w._ready_task_ids.empty() or w._delayed_tasks):
                     en.append(('wstep', i))
             elif self.alive[i] and self.running(i) \
-                    and self.node[i].s.outgoing.items:
+                    and self.node[i].s.outgoing.items \
+                    and i not in self.outgoing_dead:
                 en.append(('flush', i))
         if self.hold_recv is not None:
             p, v = self.hold_recv
             items = self.node[p].s.outgoing.items
             if self.alive[p] and self.running(p) and items \
                     and items[0][0] is self.down_conn[v] \
-                    and not self.down_conn[v].closed:
+                    and not self.down_conn[v].closed \
+                    and p not in self.outgoing_dead:
                 return [('flushdrop', p, v)]     # the outgoing thread's send fails first
             if not en or not (self.alive[p] and self.running(p)):
                 self.hold_recv = None
@@ -819,6 +841,8 @@ class CrashNet:
                 sim.cls.send_outgoing(sim.s)
             except H.Drained:
                 pass
+            except Exception as e:      # noqa: BLE001 - the outgoing THREAD dies
+                self.outgoing_dead[i] = f'{type(e).__name__}: {e}'
             sim.s.outgoing.budget = 0
             lines.append(f'flush {i}')
         elif kind == 'wstep':
@@ -868,27 +892,35 @@ class CrashNet:
             w = self.node[i]
             conn = w._conn
             k0 = len(self.kills)
-            if conn.inbox:
-                holder = conn.inbox.popleft()
+            holder = conn.inbox.popleft() if conn.inbox else None
+            lost = self.log.recv_exc.get(id(conn), 'eof')
+            state = {'n': 0}
 
-                class Once:
-                    def recv(self_inner):
-                        w._running = False
-                        if holder is BROKEN:
-                            raise OSError('got end of file during message')
-                        return holder
-                w._conn = Once()
-            else:
-                lost = self.log.recv_exc.get(id(conn), 'eof')
+            class Once:
+                """ONE iteration of `recv_incoming`: the first recv() delivers
+                the pending item (or fails the way the lost connection does),
+                the next one leaves the real loop"""
+                send = staticmethod(conn.send)
 
-                class Eof:
-                    def recv(self_inner):
-                        w._running = False
+                def recv(self_inner):
+                    state['n'] += 1
+                    if state['n'] > 1:
+                        raise _NextIteration()
+                    if holder is None:
                         raise EXC[lost]()
-                w._conn = Eof()
+                    if holder is BROKEN:
+                        raise OSError('got end of file during message')
+                    return holder
+            w._conn = Once()
             try:
                 try:
                     type(w).recv_incoming(w)
+                    if len(self.kills) == k0:
+                        # the loop ENDED although the process was not killed: the
+                        # incoming thread is gone, the main thread lives on
+                        self.incoming_dead[i] = 'recv_incoming returned'
+                except _NextIteration:
+                    pass
                 except SystemExit:       # `exit()` after the patched os.kill
                     pass
                 except Exception as e:   # noqa: BLE001 - the incoming THREAD dies
@@ -934,6 +966,8 @@ class CrashNet:
                 sim.cls.send_outgoing(sim.s)
             except H.Drained:
                 pass
+            except Exception as e:      # noqa: BLE001 - the outgoing THREAD dies
+                self.outgoing_dead[i] = f'{type(e).__name__}: {e}'
             finally:
                 sim.s.outgoing.budget = 0
                 conn.send_error = None
@@ -1296,9 +1330,15 @@ def oracles(case):
             bad.append((f'manager-upstream-open:{vk}',
                         f'manager {i} stopped but never closed its upstream '
                         'connection (its boss is not notified)'))
+    for i, why in sorted(net.outgoing_dead.items()):
+        bad.append((f'outgoing-thread-died:{vk}',
+                    f'node {i}: send_outgoing let {why} escape; the outgoing '
+                    'thread is dead, the node forwards nothing any more'))
     for i, why in sorted(net.incoming_dead.items()):
+        how = 'returned without ending the process' \
+            if why == 'recv_incoming returned' else f'let {why} escape'
         bad.append((f'worker-incoming-thread-died:{vk}',
-                    f'worker {i}: recv_incoming let {why} escape; the incoming '
+                    f'worker {i}: recv_incoming {how}; the incoming '
                     'thread is dead, the worker idles forever and never exits'))
     for (c, tid, val) in net.returned:
         ok = (isinstance(val, tuple) and len(val) == 2
@@ -1924,7 +1964,11 @@ def run(ck: Check):
         'real DetachedServer/AttachedServer/Manager/Worker/Compiler objects, '
         'one real run-loop iteration per transition, crash after every prefix '
         'of small workloads + seeded samples (second crash, truncated frame, '
-        'worker runtime error, outgoing-thread reset); every node state, '
+        'worker runtime error, outgoing-thread reset); lost connections fail '
+        'with every documented exception class (recv and send, every node '
+        'kind; victim first / middle / last of >= 3 employees; Process.join '
+        'and inherited sockets simulated); every recv/send call site x class '
+        'on the real handlers against the model table `react`; every node state, '
         'channel, flag, table and client outcome compared with bqdriver crash '
         'after every transition; direct oracles at quiescence; real-process '
         'SIGKILL runs')
@@ -1932,6 +1976,10 @@ def run(ck: Check):
         'handler atomicity: one run-loop iteration / one outgoing item / one '
         'worker step is a transition (the GIL interleavings inside a handler '
         'are not explored)',
+        'which exception class a lost connection raises where is an input of '
+        'the fault injector (all six documented classes at every site), not '
+        'derived from an OS model; a peer that vanishes without FIN/RST is '
+        'never reported by the OS and is outside the model',
         'OS truths only validated by the real-process runs (exploration, not '
         'proof): a dead peer yields EOF after the buffered data, process exit, '
         'process.join() returning, time bounds',
